@@ -722,6 +722,14 @@ func (c *Chunker) chunkSection(section *Section, chunkIndex *int, docTitle strin
 
 	text := textBuilder.String()
 	if strings.TrimSpace(text) == "" {
+		// A heading with no content of its own and no subsections would otherwise
+		// disappear from the output: no chunk text and no section metadata would
+		// mention it. Emit it as a chunk of its own.
+		if strings.TrimSpace(section.Title) != "" && len(section.Children) == 0 && section.Heading != nil {
+			chunk := c.createChunk(section.Title, section, *chunkIndex, docTitle, []string{model.ElementTypeHeading.String()}, false, false, false, nil)
+			chunks = append(chunks, chunk)
+			*chunkIndex++
+		}
 		return chunks
 	}
 
